@@ -23,11 +23,19 @@ use std::sync::atomic::{AtomicU64, Ordering};
 #[serde(tag = "t")]
 pub enum Case {
     Freq { chip: String, hz: u32 },
-    Power { chip: String, request: i32, hz: u32 },
+    Power {
+        chip: String,
+        request: i32,
+        hz: u32,
+        /// 0: RadioKind::set_tx_power_and_ramp_time, 1: LoRa::prepare_for_tx, 2: LoRa::continuous_wave
+        #[serde(default)]
+        via: u8,
+    },
     Timeout { chip: String, symbols: u16 },
     Adapter { chip: String, sf: usize, bw: usize, ms: u32 },
     Status126 { raw: [u8; 3] },
     Status127 { sx1272: bool, snr: u8, rssi: u8, hf: bool },
+    Status127At { sx1272: bool, snr: u8, rssi: u8, frf: u32 },
 }
 
 type R126<C> = sx126x::Sx126x<crate::phy::MockSpi, crate::phy::MockIv, C>;
@@ -148,10 +156,28 @@ fn decode126(duty: u8, hp: u8, dev: u8, param: i8, stm_hp: bool) -> Vec<i32> {
 }
 
 pub fn eval_power(chip: &str, request: i32, hz: u32, env: &Env) -> Vec<(String, String)> {
+    eval_power_via(chip, request, hz, 0, env)
+}
+
+/// `via`: the call site the request goes through (the driver's own entry point, or the LoRa front-end's
+/// prepare_for_tx / continuous_wave, which hand the carrier frequency on with the modulation parameters).
+pub fn eval_power_via(chip: &str, request: i32, hz: u32, via: u8, env: &Env) -> Vec<(String, String)> {
     let r = catch(|| {
         with_chip!(chip, env, |r| {
-            let mp = r.create_modulation_params(lora_modulation::SpreadingFactor::_7, lora_modulation::Bandwidth::_125KHz, CodingRate::_4_5, hz).ok();
-            drive(r.set_tx_power_and_ramp_time(request, mp.as_ref(), true))
+            if via == 0 {
+                let mp = r.create_modulation_params(lora_modulation::SpreadingFactor::_7, lora_modulation::Bandwidth::_125KHz, CodingRate::_4_5, hz).ok();
+                drive(r.set_tx_power_and_ramp_time(request, mp.as_ref(), true))
+            } else {
+                let Some(Ok(mut l)) = drive(lora_phy::LoRa::new(r, true, env.delay())) else { return None };
+                env.take_log();
+                let mp = l.create_modulation_params(lora_modulation::SpreadingFactor::_7, lora_modulation::Bandwidth::_125KHz, CodingRate::_4_5, hz).ok()?;
+                if via == 1 {
+                    let mut txp = l.create_tx_packet_params(8, false, true, false, &mp).ok()?;
+                    drive(l.prepare_for_tx(&mp, &mut txp, request, &[1, 2, 3]))
+                } else {
+                    drive(l.continuous_wave(&mp, request))
+                }
+            }
         })
     });
     let log = env.take_log();
@@ -184,6 +210,10 @@ pub fn eval_power(chip: &str, request: i32, hz: u32, env: &Env) -> Vec<(String, 
         let (plo, phi) = if hp { (-9, 22) } else { (-17, 14) };
         if (param as i32) < plo || (param as i32) > phi {
             v.push((format!("C17|power|{chip}|tx-params-out-of-range"), format!("request {request}: SetTxParams power {param} outside {plo}..{phi}")));
+        }
+        // datasheet 13.1.14: below 400 MHz the low-power PA must not be driven with paDutyCycle above 0x04
+        if !hp && hz < 400_000_000 && pa.w[1] > 0x04 {
+            v.push((format!("C17|power|{chip}|pa-duty-cycle-above-the-sub-400mhz-limit"), format!("request {request} dBm at {hz} Hz: SetPaConfig {:02x?}", pa.w)));
         }
         let want = 10 * request.clamp(lo, hi);
         let dec = decode126(pa.w[1], pa.w[2], pa.w[3], param, chip == "stm32wl-hp");
@@ -372,7 +402,14 @@ pub fn eval_status126(raw: [u8; 3], env: &Env, cell: &Rc<Cell<[u8; 3]>>) -> Vec<
 }
 
 pub fn eval_status127(sx1272: bool, snr: u8, rssi: u8, hf: bool) -> Vec<(String, String)> {
-    let frf: u32 = if hf { 0xD9_0000 } else { 0x6C_8000 }; // 868 MHz / 434 MHz
+    eval_status127_at(sx1272, snr, rssi, if hf { 0xD9_0000 } else { 0x6C_8000 }) // 868 MHz / 434 MHz
+}
+
+/// `frf`: the 24-bit RegFrf value the chip holds while the status is read. The SX1276's RSSI offset is
+/// -157 dBm on the HF port and -164 dBm on the LF port; Semtech's driver (and the datasheet's band table)
+/// draw the line at 525 MHz.
+pub fn eval_status127_at(sx1272: bool, snr: u8, rssi: u8, frf: u32) -> Vec<(String, String)> {
+    let hf = (frf as u64 * 32_000_000) >> 19 > 525_000_000;
     let env = passive(move |w, n| {
         let a = w.first().copied().unwrap_or(0) & 0x7F;
         let v = match a {
@@ -409,7 +446,7 @@ pub fn eval_status127(sx1272: bool, snr: u8, rssi: u8, hf: bool) -> Vec<(String,
             // for negative SNR the value is the sum of two separately rounded terms: 1 dB each
             let tol = if s >= 0.0 { 1.0 } else { 2.0 };
             if !cands.iter().any(|c| (ps.rssi as f64 - c).abs() <= tol) {
-                v.push((format!("C17|status|{name}|rssi"), format!("snr {snr:#x} rssi {rssi:#x} hf={hf}: reported {} dBm, datasheet {:?}", ps.rssi, cands)));
+                v.push((format!("C17|status|{name}|rssi"), format!("snr {snr:#x} rssi {rssi:#x} carrier {} Hz ({}): reported {} dBm, datasheet {:?}", (frf as u64 * 32_000_000) >> 19, if hf { "HF port" } else { "LF port" }, ps.rssi, cands)));
             }
             v
         }
@@ -421,7 +458,13 @@ pub fn eval(c: &Case) -> Vec<(String, String)> {
     let env = passive(|_w, n| vec![0; n]);
     match c {
         Case::Freq { chip, hz } => eval_freq(chip, *hz, &env),
-        Case::Power { chip, request, hz } => eval_power(chip, *request, *hz, &env),
+        Case::Power { chip, request, hz, via } => {
+            if *via != 0 {
+                let env = passive(|_w, n| vec![0; n]);
+                return eval_power_via(chip, *request, *hz, *via, &env);
+            }
+            eval_power_via(chip, *request, *hz, *via, &env)
+        }
         Case::Timeout { chip, symbols } => eval_timeout(chip, *symbols, &env),
         Case::Adapter { chip, sf, bw, ms } => eval_adapter(chip, *sf, *bw, *ms),
         Case::Status126 { raw } => {
@@ -440,6 +483,7 @@ pub fn eval(c: &Case) -> Vec<(String, String)> {
             eval_status126(*raw, &env, &cell)
         }
         Case::Status127 { sx1272, snr, rssi, hf } => eval_status127(*sx1272, *snr, *rssi, *hf),
+        Case::Status127At { sx1272, snr, rssi, frf } => eval_status127_at(*sx1272, *snr, *rssi, *frf),
     }
 }
 
@@ -503,9 +547,20 @@ pub fn run(tier: Tier, replay: Option<&str>) {
         for hz in [868_100_000u32, 434_000_000, 169_000_000] {
             for &rq in &reqs {
                 let v = eval_power(chip, rq, hz, &env);
-                rec(Case::Power { chip: chip.into(), request: rq, hz }, v);
+                rec(Case::Power { chip: chip.into(), request: rq, hz, via: 0 }, v);
                 ctx.tick(1);
                 nontrivial.fetch_add(1, Ordering::Relaxed);
+                // the same request through the LoRa front-end's two call sites
+                // (SX126x: SetPaConfig / SetTxParams are commands of their own, so the log of the whole call decodes
+                // unambiguously)
+                if (-20..=30).contains(&rq) && is126(chip) {
+                    for via in [1u8, 2] {
+                        let env = passive(|_w, n| vec![0; n]);
+                        let v = eval_power_via(chip, rq, hz, via, &env);
+                        rec(Case::Power { chip: chip.into(), request: rq, hz, via }, v);
+                        ctx.tick(1);
+                    }
+                }
             }
         }
     }
@@ -547,6 +602,26 @@ pub fn run(tier: Tier, replay: Option<&str>) {
         ctx.tick(n);
         nontrivial.fetch_add(n, Ordering::Relaxed);
     });
+    // (e2) SX127x packet RSSI over the carrier frequency: both sides of every band edge, the LoRaWAN bands in
+    // between (CN779, 433, 470), one PLL step around the 525 MHz line
+    let mut carriers: Vec<u64> = vec![137_000_000, 175_000_000, 410_000_000, 433_175_000, 470_300_000, 510_000_000, 524_999_000, 526_000_000, 600_000_000, 779_500_000, 786_500_000, 861_900_000, 862_000_000, 863_000_000, 868_100_000, 902_300_000, 915_000_000, 923_200_000, 1_020_000_000];
+    let frf525 = ((525_000_000u64 << 19) / 32_000_000) as u32;
+    let mut frfs: Vec<u32> = carriers.drain(..).map(|f| ((f << 19) / 32_000_000) as u32).collect();
+    frfs.extend(frf525 - 2..=frf525 + 2);
+    for &frf in &frfs {
+        for sx1272 in [false, true] {
+            for snr in [0x20u8, 0x00, 0xF0] {
+                for rssi in [0u8, 0x31, 0x80, 0xFF] {
+                    let v = eval_status127_at(sx1272, snr, rssi, frf);
+                    if !v.is_empty() {
+                        rec(Case::Status127At { sx1272, snr, rssi, frf }, v);
+                    }
+                }
+            }
+        }
+    }
+    ctx.tick(frfs.len() as u64 * 24);
+    nontrivial.fetch_add(frfs.len() as u64 * 24, Ordering::Relaxed);
     // (e) packet status
     let r2s: Vec<u8> = if th { (0..=255).collect() } else { vec![0, 0x80, 0xFF] };
     (0..=255u32).into_par_iter().for_each(|r0| {
@@ -588,10 +663,10 @@ pub fn run(tier: Tier, replay: Option<&str>) {
     let coverage = json!({
         "evaluations": ctx.evals(),
         "distinct_nontrivial": nontrivial.load(Ordering::Relaxed),
-        "rule": "(a) set_channel on SX126x and SX127x for every 100 Hz of the LoRaWAN bands plus a 1 kHz stride over 137-1020 MHz (thorough: every 1 Hz of 137-1020 MHz), PLL word decoded with the datasheet formula; (b) set_tx_power_and_ramp_time for every request -128..127 and i32 extremes x {SX1261, SX1262, STM32WL LP/HP, SX1276 RFO/BOOST, SX1272 RFO/BOOST} x 3 bands, PA registers decoded with the datasheet tables; (c) every symbol timeout 0..65535 through do_rx, decoded mantissa/exponent (SX126x) or 10-bit value (SX127x); (d) every (SF,BW) x margin 0..1000 ms through LorawanRadio::setup_rx + rx_single; (e) every raw SX126x (RssiPkt, SnrPkt[, SignalRssi]) value and every SX127x (SNR, RSSI, band, chip) register value through get_rx_packet_status. Every tuple is a distinct input",
+        "rule": "(a) set_channel on SX126x and SX127x for every 100 Hz of the LoRaWAN bands plus a 1 kHz stride over 137-1020 MHz (thorough: every 1 Hz of 137-1020 MHz), PLL word decoded with the datasheet formula; (b) set_tx_power_and_ramp_time for every request -128..127 and i32 extremes x {SX1261, SX1262, STM32WL LP/HP, SX1276 RFO/BOOST, SX1272 RFO/BOOST} x 3 bands, PA registers decoded with the datasheet tables, and (SX126x) requests -20..30 also through LoRa::prepare_for_tx and LoRa::continuous_wave; (c) every symbol timeout 0..65535 through do_rx, decoded mantissa/exponent (SX126x) or 10-bit value (SX127x); (d) every (SF,BW) x margin 0..1000 ms through LorawanRadio::setup_rx + rx_single; (e) every raw SX126x (RssiPkt, SnrPkt[, SignalRssi]) value and every SX127x (SNR, RSSI, band, chip) register value through get_rx_packet_status, and the SX127x conversion over carrier frequencies on both sides of every band edge and of the 525 MHz LF/HF line. Every tuple is a distinct input",
         "samples": [
             serde_json::to_value(Case::Freq { chip: "sx1262".into(), hz: 868_100_000 }).unwrap(),
-            serde_json::to_value(Case::Power { chip: "sx1276-boost".into(), request: 20, hz: 868_100_000 }).unwrap(),
+            serde_json::to_value(Case::Power { chip: "sx1276-boost".into(), request: 20, hz: 868_100_000, via: 0 }).unwrap(),
             serde_json::to_value(Case::Adapter { chip: "sx1262".into(), sf: 7, bw: 7, ms: 50 }).unwrap(),
             serde_json::to_value(Case::Status126 { raw: [0x50, 0x7F, 0] }).unwrap(),
         ],
